@@ -83,6 +83,9 @@ type udpRun struct {
 	corrupt int
 	gate    chan struct{}
 	cb      *dropCB
+	// behaviour "error": source address of each datagram as the decoder saw it, and what the error consumer read later
+	srcOf   map[uint32]string
+	errSrc  int
 }
 
 func (u *udpRun) decoder(behaviour string) utils.DecoderFunc {
@@ -105,7 +108,14 @@ func (u *udpRun) decoder(behaviour string) utils.DecoderFunc {
 		u.mu.Unlock()
 		switch behaviour {
 		case "error":
-			return errors.New("decoder error")
+			// as the pipes do: the error carries the message it is about; the consumer of Errors() reads it later
+			u.mu.Lock()
+			if u.srcOf == nil {
+				u.srcOf = map[uint32]string{}
+			}
+			u.srcOf[id] = m.Src.String()
+			u.mu.Unlock()
+			return &utils.PipeMessageError{Message: m, Err: fmt.Errorf("decoder error id=%d", id)}
 		case "panic":
 			panic("decoder panic")
 		}
@@ -163,8 +173,21 @@ func opUDP(st *state, args []string) []string {
 	if err := r.Start("127.0.0.1", port, u.decoder(behaviour)); err != nil {
 		return []string{resErr(err)}
 	}
-	go func() { // drain the error channel
-		for range r.Errors() {
+	go func() { // the consumer of the error channel, as main.go: it reads the message an error is about, a little later
+		for e := range r.Errors() {
+			var pe *utils.PipeMessageError
+			if errors.As(e, &pe) && pe.Message != nil {
+				var id uint32
+				if _, err := fmt.Sscanf(pe.Err.Error(), "decoder error id=%d", &id); err == nil {
+					time.Sleep(50 * time.Microsecond)
+					got := pe.Message.Src.String()
+					u.mu.Lock()
+					if want, ok := u.srcOf[id]; ok && want != got {
+						u.errSrc++
+					}
+					u.mu.Unlock()
+				}
+			}
 		}
 	}()
 	ids := make([]uint32, n)
@@ -258,8 +281,11 @@ func opUDP(st *state, args []string) []string {
 	}
 	fmt.Fprintf(os.Stderr, "udp stats: sent=%d reads=%d decoded=%d dropped=%d\n", n, reads, dec, drp)
 	st.extra["udp.last"] = fmt.Sprintf("sent=%d reads=%d decoded=%d dropped=%d", n, reads, dec, drp)
-	return []string{fmt.Sprintf("res ok dup=%d both=%d corrupt=%d unaccounted=%d blockingdrops=%d stop=%s leak=%d rebind=%d",
-		dup, both, corrupt, int(reads)-dec-drp, blockingDrops, stopRes, leak, rebind)}
+	u.mu.Lock()
+	errSrc := u.errSrc
+	u.mu.Unlock()
+	return []string{fmt.Sprintf("res ok dup=%d both=%d corrupt=%d unaccounted=%d blockingdrops=%d stop=%s leak=%d rebind=%d errsrc=%d",
+		dup, both, corrupt, int(reads)-dec-drp, blockingDrops, stopRes, leak, rebind, errSrc)}
 }
 
 // updown <sockets> <workers> <queue> <blocking> <calls>: calls is a string over S (Start) and T (Stop);
